@@ -98,6 +98,12 @@ func (s *Store) mk(op Op, sort Sort, args []*Term, val *big.Int, b bool, name st
 		}
 	}
 	s.computeInterval(t)
+	if t.Sort == SInt && t.Op != OpConst && t.Lo != nil && t.Hi != nil && t.Lo.Cmp(t.Hi) == 0 {
+		// the interval pins the value: it is a constant
+		c := s.Int(t.Lo)
+		s.tab[k] = c
+		return c
+	}
 	s.tab[k] = t
 	return t
 }
